@@ -71,7 +71,7 @@ class C19Runner:
         mod = load_gen_jobs()
         sams = sam_ranges(drv)
         rng = random.Random(repr((seed, pid)))
-        grid = [(1, 1), (1, 16), (4, 64), (16, 1024), (1, 1040), (8193, 16)] if tier == "quick" else \
+        grid = [(1, 1), (1, 16), (4, 64), (16, 1024), (1, 1040), (8193, 16), (3, 1000), (1, 48)] if tier == "quick" else \
                [(a, b) for a in (1, 2, 16, 256, 9000) for b in (1, 2, 3, 16, 100, 512, 1024, 1025, 4096)]
         stats = collections.Counter()
         samples = []
@@ -83,6 +83,8 @@ class C19Runner:
             for rw in ("read", "write"):
                 for (nbl, wbl) in grid:
                     nnb, nwb = rng.choice([(1, 1), (2, 3), (10, 100) if tier == "thorough" else (2, 2)])
+                    if wbl in (48, 1000):
+                        nnb, nwb = 2, 45          # many bursts of a length that does not divide the memory size
                     mod.random.seed(seed * 1000 + evaluations)
                     try:
                         jobs = real_jobs(mod, traffic, rw, nbl, wbl, nnb, nwb)
